@@ -27,6 +27,7 @@ type c22 struct {
 	at         int    // n-th invocation (1-based) of the function for the victim
 	count      int
 	fired      bool
+	noCB       bool // the node whose code panics has no panic callback configured (the default)
 }
 
 func newC22() Scenario { return &c22{} }
@@ -48,8 +49,17 @@ func (s *c22) Build(w *World) {
 	s.fn = fns[t.Draw(len(fns))]
 	s.at = 1 + t.Draw(6)
 	cfg := NodeCfg{GateReads: true, GateCommits: true}
-	s.a = NewNode(w, "A", cfg)
-	s.b = NewNode(w, "B", cfg)
+	s.noCB = t.Chance(400)
+	acfg, bcfg := cfg, cfg
+	if s.noCB {
+		if s.side == "requestor" {
+			acfg.NoPanicCB = true
+		} else {
+			bcfg.NoPanicCB = true
+		}
+	}
+	s.a = NewNode(w, "A", acfg)
+	s.b = NewNode(w, "B", bcfg)
 	for _, d := range []*DAG{s.dagV, s.dagS} {
 		for _, c := range d.Order {
 			s.b.Store.Put(c, d.Blocks[c])
@@ -163,7 +173,7 @@ func (s *c22) Build(w *World) {
 }
 
 func (s *c22) Describe(w *World) string {
-	return fmt.Sprintf("panic in %s on the %s at call %d (fired=%v); victim dag=%d sibling dag=%d", s.fn, s.side, s.at, s.fired, len(s.dagV.Order), len(s.dagS.Order))
+	return fmt.Sprintf("panic in %s on the %s at call %d (fired=%v) callback=%v; victim dag=%d sibling dag=%d", s.fn, s.side, s.at, s.fired, !s.noCB, len(s.dagV.Order), len(s.dagS.Order))
 }
 
 func (s *c22) Done(w *World) bool            { return s.victim.Done() && s.sibling.Done() }
@@ -216,7 +226,7 @@ func (s *c22) Final(w *World) *Violation {
 			got = true
 		}
 	}
-	if !got {
+	if !got && !s.noCB {
 		return &Violation{Property: "C22", Rule: "R2", Signature: "callback-not-called:" + sig, Detail: fmt.Sprintf("panic callback on %s saw %v", node.Name, node.Panics)}
 	}
 	return nil
